@@ -5,7 +5,7 @@ use crate::expr::expression_pos_p;
 use crate::expr::file_handle::file_handle_p;
 use crate::input::StringView;
 use crate::pc_specific::*;
-use crate::tokens::comma_ws;
+use crate::tokens::{any_symbol_of, any_token_of, comma_ws};
 use crate::{
     BuiltInSub, Expression, ExpressionPos, Expressions, FileHandle, Keyword, ParserError, Statement,
 };
@@ -16,7 +16,14 @@ pub fn parse_built_in_sub_with_opt_args(
     k: Keyword,
     built_in_sub: BuiltInSub,
 ) -> impl Parser<StringView, Output = Statement, Error = ParserError> {
-    keyword_ws_p(k)
+    // `COLOR , 1` may also be written `COLOR,1`: after the keyword comes whitespace,
+    // or a comma, parenthesis or minus sign that cannot be taken for a part of it
+    keyword_ignoring(k)
+        .and_keep_right(
+            whitespace_ignoring()
+                .or(any_symbol_of!(',', '(', '-').map_to_unit().peek())
+                .or_expected("whitespace"),
+        )
         .and_keep_right(csv_allow_missing())
         .map(move |opt_args| {
             Statement::built_in_sub_call(built_in_sub, map_opt_args_to_flags(opt_args))
